@@ -10,5 +10,6 @@ cd "$(dirname "$0")"
 /venv/bin/python translate/protocol.py
 /venv/bin/python translate/cli.py
 /venv/bin/python translate/sinks.py
+/venv/bin/python translate/pysrc.py > /dev/null
 cd lean
 lake build DS driver
